@@ -22,6 +22,9 @@ AH = f"{D}::storage::AtomicHistogram"
 STATE = f"{D}::state::State"
 
 
+FIELD = {}  # pinned private field name -> today's name, found by the role the field plays (see _field_roles)
+
+
 def is_param(s, i):
     a = sym_arg(s)
     return a is not None and a[0] == i
@@ -29,7 +32,7 @@ def is_param(s, i):
 
 def self_field(s, field):
     s = strip_sym(s)
-    return isinstance(s, tuple) and s and s[0] == "field" and s[2] == field and is_param(s[1], 0)
+    return isinstance(s, tuple) and s and s[0] == "field" and s[2] == FIELD.get(field, field) and is_param(s[1], 0)
 
 
 def const_int(s):
@@ -39,6 +42,47 @@ def const_int(s):
 
 def ops_on(fn, field):
     return [o for o in atomic_ops(fn) if self_field(o[2], field)]
+
+
+def _field_of(o):
+    s = strip_sym(o[2])
+    return s[2] if isinstance(s, tuple) and s and s[0] == "field" and is_param(s[1], 0) else None
+
+
+def _field_roles(d):
+    """The private atomics of the two scalar storages are told apart by what the update methods do with them, not by
+    their names: the counter word is the one increment() adds its argument to, the update count the one it adds 1 to,
+    the flag the AtomicBool, the remaining word the flushed baseline; the gauge word is the one set() stores
+    value.to_bits() into, the other one its update count."""
+    FIELD.clear()
+    FIELD["gauge_updates"] = "updates"
+    adt = d.adts.get(AC)
+    inc = (d.method(AC, "increment", "CounterFn") or [None])[0]
+    if adt and inc:
+        flds = {f["name"]: f["ty"] for f in adt.get("fields", [])} if adt.get("fields") else {}
+        if not flds:
+            for v in adt.get("variants", []):
+                for f in v.get("fields", []):
+                    flds[f["name"]] = f["ty"]
+        cur = [o for o in atomic_ops(inc) if o[1] == "fetch_add" and is_param(o[3][1], 1)]
+        upd = [o for o in atomic_ops(inc) if o[1] == "fetch_add" and const_int(o[3][1]) == 1]
+        words = [n for n, t in flds.items() if "AtomicU64" in t or "Atomic<u64>" in t]
+        flags = [n for n, t in flds.items() if "AtomicBool" in t or "Atomic<bool>" in t]
+        if len(cur) == 1 and len(upd) == 1 and _field_of(cur[0]) and _field_of(upd[0]) and _field_of(cur[0]) != _field_of(upd[0]) and len(words) == 3 and len(flags) == 1:
+            rest = [w for w in words if w not in (_field_of(cur[0]), _field_of(upd[0]))]
+            if len(rest) == 1:
+                FIELD.update({"current": _field_of(cur[0]), "updates": _field_of(upd[0]), "last": rest[0], "is_absolute": flags[0]})
+    adt = d.adts.get(AG)
+    gs = (d.method(AG, "set", "GaugeFn") or [None])[0]
+    if adt and gs:
+        flds = {}
+        for f in adt.get("fields", []) or [f for v in adt.get("variants", []) for f in v.get("fields", [])]:
+            flds[f["name"]] = f["ty"]
+        st = [o for o in atomic_ops(gs) if o[1] in ("store", "swap") and sym_is_call(strip_sym(o[3][1]), "to_bits")]
+        words = [n for n, t in flds.items() if "AtomicU64" in t or "Atomic<u64>" in t]
+        if len(st) == 1 and _field_of(st[0]) and len(words) == 2:
+            rest = [w for w in words if w != _field_of(st[0])]
+            FIELD.update({"inner": _field_of(st[0]), "gauge_updates": rest[0]})
 
 
 def run(ctx):
@@ -53,6 +97,8 @@ def run(ctx):
     chk.residue.append("the multi-word races of AtomicCounter (a flush between last.store and current.store in the first absolute(); 'zero sent exactly once' under races) are NOT decided: no sound structural rule separates them from benign multi-atomic code")
 
     # ---------------- C10.a
+    _field_roles(d)
+    chk.analysed["storage field roles"] = dict(FIELD)
     fl = one_method(chk, "C10.a", d, AC, "flush")
     if fl:
         cur = ops_on(fl, "current")
@@ -96,7 +142,7 @@ def run(ctx):
         chk.unrecognised("C10.a", "<anchor> <AtomicCounter as CounterFn>::absolute", "missing")
     gfl = one_method(chk, "C10.a", d, AG, "flush")
     if gfl:
-        inn, upd = ops_on(gfl, "inner"), ops_on(gfl, "updates")
+        inn, upd = ops_on(gfl, "inner"), ops_on(gfl, "gauge_updates")
         ok = len(inn) == 1 and inn[0][1] == "load" and len(upd) == 1 and upd[0][1] == "swap" and const_int(upd[0][3][1]) == 0
         ret = strip_sym(Sym(gfl).local(0))
         ok = ok and ret[0] == "agg" and sym_is_call(strip_sym(ret[3][0]), "from_bits")
@@ -183,7 +229,11 @@ def run(ctx):
             ins_ = [c for c in idle_calls if callee_method_name(c) in ("insert", "replace")]
             rem_ = [c for c in idle_calls if callee_method_name(c) in ("remove", "take")]
             chk_ = [c for c in idle_calls if callee_method_name(c) in ("contains", "get")]
-            okm = bool(ins_) and bool(rem_) and bool(chk_) and all(pf.at(c.bb) == "P" for c in ins_ + chk_) and all(pf.at(c.bb) != "P" for c in rem_)
+            from props.common import result_unused
+
+            # consulting the mark = contains/get, or an insert whose "was it new?" result is used (test-and-mark in one call)
+            consulted = bool(chk_) or any(not result_unused(c) for c in ins_)
+            okm = bool(ins_) and bool(rem_) and consulted and all(pf.at(c.bb) == "P" for c in ins_ + chk_) and all(pf.at(c.bb) != "P" for c in rem_)
             # every active flush of a counter passes the un-marking before it is written
             if okm:
                 active_start = [x for x in range(b.n) if pf.at(x) == "N" and any(pf.at(p_) != "N" for p_ in b.preds().get(x, []))]
